@@ -289,7 +289,7 @@ def start_task_post(th: PoolTheory, seg, new, me, a, result, ecb_ref, ccb_ref):
     u = z3.Const("u!s", Ref)
     cl = []
     cl.append(("id-is-next", z3.And(r == o.n, n.n == o.n + 1), ("C11",)))
-    cl.append(("registered-running", z3.And(n.R.has(r), t != NONE, sel(o.kind, t) == K_NONE, sel(n.kind, t) == K_WRAPPER, sel(n.loc, t) == L_NS,
+    cl.append(("registered-running", z3.And(n.R.has(r), t != NONE, sel(sym.TRUTHY, t), sel(o.kind, t) == K_NONE, sel(n.kind, t) == K_WRAPPER, sel(n.loc, t) == L_NS,
                                             z3.Not(sel(n.creq, t)), z3.Not(sel(n.cever, t)), z3.Not(sel(n.fcan, t)), sel(n.tid, t) == r, sel(n.wt, r) == t), ("C11", "C03")))
     cl.append(("wrapper-gets-exactly-the-passed-objects", z3.And(sel(n.aw, t) == a["awaitable"].t, sel(n.ecb, t) == ecb_ref, sel(n.ccb, t) == ccb_ref), ("C04", "C05", "C03")))
     cl.append(("task-name-shows-id", sel(n.tname, t) == sym.str_concat([pool_str(new), "_Task-", StrV(sym.itos(r))]).t, ("C11",)))
@@ -336,7 +336,7 @@ def u_start_task(ip: Interp, th: PoolTheory):
     st.assume(z3.Not(z3.Select(p0.creq, me)))
     a = spawner_start_args(st, th)
     st.assume(a["group_name"].t == z3.Select(p0.grp, me))
-    st.assume(a["awaitable"].t != NONE)
+    st.assume(z3.And(a["awaitable"].t != NONE, z3.Select(sym.TRUTHY, a["awaitable"].t)))  # U10
     st.aux["start_group"] = a["group_name"].t
     th.instantiate_for_me(st)
     st0 = st.fork()
@@ -403,8 +403,9 @@ def c_start_task(ip: Interp, st: St, fr, selfv, args):
     ip.require(st, "pre:_start_task:called-by-a-live-uncancelled-spawner-for-its-own-group",
                z3.And(p.is_spawner(me), z3.Not(z3.Select(p.creq, me)), a["group_name"].t == z3.Select(p.grp, me)), ("C07", "C10"))
     ip.require(st, "pre:_start_task:holds-no-pool-slot-yet", z3.Not(z3.Select(p.tok, me)), ("C02",))
+    ip.require(st, "pre:_start_task:awaitable-is-truthy(U10)", z3.Select(sym.TRUTHY, a["awaitable"].t), ("C09",))
     th.check_point(st, "call:_start_task")
-    st.assume(a["awaitable"].t != NONE)
+    st.assume(z3.And(a["awaitable"].t != NONE, z3.Select(sym.TRUTHY, a["awaitable"].t)))
     out = []
     rej, accepted = start_task_rejection(st.sh, a)
     for cls_, cond in rej:
